@@ -26,6 +26,25 @@ def gen_scenario(rng):
     return {"world": w, "requests": reqs, "env0": env0}
 
 
+SHELL, MS_INVERSE, MS_DIRECTED, REFS, NEIGHBOURS = 50, 40, 20, 34, 12      # quick-tier sizes of the families added in round 5
+
+
+def gen_scenario_shell(rng):
+    """setup X then unsetup X through the command-line front end: the record of each request carries the command list
+    (what the shell sources); the path variables the tables touch are more often than not unset or empty beforehand, so
+    that the unsetup takes their last element away"""
+    s = gen_scenario(rng)
+    for k in ("LD_LIBRARY_PATH", "XLIST"):
+        r = rng.random()
+        if r < 0.45:
+            s["env0"].pop(k, None)
+        elif r < 0.6:
+            s["env0"][k] = ""
+    for q in s["requests"]:
+        q["cli"] = True
+    return s
+
+
 def contrib(name, rng=None):
     up = name.upper()
     out = ["envPrepend(PATH, ${PRODUCT_DIR}/bin)", "envAppend(LD_LIBRARY_PATH, ${PRODUCT_DIR}/lib)",
@@ -102,7 +121,56 @@ def norm_env(res, env):
     return out
 
 
+def shell_oracle(ctx, case, r1, r2, norm, strip=lambda x: x):
+    """the command list eups.app.setup returned for the setup and for the unsetup (what setupcmd printed), sourced one
+    after the other by a shell that starts with the environment before: every variable (and shell function) is back
+    to its prior state - in the shell, which only sees the commands, not only in os.environ of the eups processes"""
+    if r1.get("cmds") is None or r2.get("cmds") is None:
+        return
+    ctx.bump("command-lists-sourced-by-a-shell")
+    funcs = {}
+    sh1 = S.shell_apply(r1["cmds"], r1["before"], funcs)
+    sh2 = S.shell_apply(r2["cmds"], sh1, funcs) if sh1 is not None else None
+    if sh2 is None:
+        ctx.fail("command-list-unreadable", case, expected="export N=V / unset N / unset -f N / name() { ... ; }",
+                 observed=strip((r1["cmds"] if sh1 is None else r2["cmds"])[-600:]), what="a command of the list is of no known form")
+        return
+    # the same shell on the model side (coq/Model/SetupCmds.v shell_after: the emitter and the shell fragment of C05 applied
+    # to the three environments of the real run): its environment is the one the real command lists leave
+    out = ctx.model(["\t".join(["cmds", common.enc_env(r1["before"]), common.enc_env(r1["after"]), common.enc_env(r2["after"])])],
+                    pid="C01")[0].split("\t")
+    if out[0] == "ok":
+        msh = {}
+        for k, v in common.dec_env(out[1]):
+            msh.setdefault(k, v)
+        ctx.bump("command-lists-sourced-by-a-shell:compared-with-the-model-shell")
+        if msh != sh2:
+            diff = {k: (msh.get(k), sh2.get(k)) for k in set(msh) | set(sh2) if msh.get(k) != sh2.get(k)}
+            ctx.disagree(case, {"shell_env_diff(model,impl)": strip(diff)}, {"commands": strip(r2["cmds"][-400:])},
+                         where="shell-after-the-command-lists")
+    elif out[0] == "outside":
+        ctx.bump("command-lists-sourced-by-a-shell:outside-cmds_in_claim")
+    else:
+        ctx.disagree(case, out, None, where="shell-model-error")
+    emptied = [k for k, v in r2["after"].items() if v == "" and r1["before"].get(k) in (None, "")]
+    if emptied:
+        ctx.bump("command-lists-sourced-by-a-shell:a-variable-ends-empty")
+    a, b = norm(r1["before"]), norm(sh2)
+    if a != b:
+        diff = {k: (a.get(k), b.get(k)) for k in set(a) | set(b) if a.get(k) != b.get(k)}
+        ctx.fail("shell-not-restored", case, expected=strip({k: v[0] for k, v in diff.items()}),
+                 observed=strip({k: v[1] for k, v in diff.items()}),
+                 what="a shell that sources the command lists of setup and of unsetup of %s ends with %r (os.environ of the "
+                      "unsetup process is as before the setup)" % (r1["request"]["name"], strip(diff)))
+        return
+    if funcs:
+        ctx.fail("alias-left", case, expected={}, observed=funcs,
+                 what="the shell that sourced the two command lists still has the functions %r" % sorted(funcs))
+
+
 def oracle(ctx, s, res):
+    if len(res["records"]) > 2:
+        res = dict(res, records=res["records"][-2:])      # setup X, unsetup X at the end of a longer sequence
     r1, r2 = res["records"][0], res["records"][1]
     case = {"world": s["world"], "requests": s["requests"], "env0": s["env0"]}
     pre = [k for k in s["env0"] if k.endswith("_HOME")]
@@ -140,6 +208,70 @@ def oracle(ctx, s, res):
         ctx.fail("alias-left", case, expected={}, observed=shell,
                  what="after setup + unsetup of %s the shell still has the aliases %r (defined by the setup: %r)" % (
                      r1["request"]["name"], sorted(shell), r1["aliases"]))
+        return
+    shell_oracle(ctx, case, r1, r2, lambda e: norm_env(res, e), lambda x: json.loads(S.strip_stack(res, json.dumps(x))))
+
+
+def oracle_ms(ctx, s, res):
+    """setup X then unsetup X on a world with several stacks (the unsetup possibly with other stacks selected than the
+    setup: the product is looked up in the stack SETUP_X records)"""
+    r1, r2 = res["records"][0], res["records"][1]
+    case = {"world": s["world"], "requests": s["requests"], "env0": s["env0"]}
+    sa = S.ms_records(r1["after"]) if r1["ok"] else {}
+    second = any(v[1] != res["roots"][0] for v in sa.values())
+    other = r2["request"].get("Z") is not None or bool(r2["request"].get("z"))
+    shape = "ms/%s/%s/%s" % ("setup-ok" if r1["ok"] else "setup-failed",
+                             "something-from-second-stack" if second else "all-from-first-stack",
+                             "unsetup-with-selected-stacks" if other else "unsetup-on-whole-path")
+    ctx.count(1, key=shape, nontrivial=json.dumps([s["world"], s["requests"], s["env0"]], sort_keys=True)
+              if r1["ok"] and len(sa) > 1 else None)
+    if not r1["ok"]:
+        if not (r1["outcome"] == "fail" or r1["outcome"].startswith("raise")):
+            ctx.fail("failed-request", case, expected="failure reported", observed=r1["outcome"], what="unexpected outcome")
+        return
+    if not r2["ok"]:
+        ctx.fail("unsetup-failed", case, expected="unsetup succeeds", observed=r2["outcome"],
+                 what="unsetup of a product that was just set up failed (it is recorded as %r)" % (
+                     S.strip_roots(res, sa.get(r1["request"]["name"])),))
+        return
+    a, b = S.ms_norm_env(res, r1["before"]), S.ms_norm_env(res, r2["after"])
+    if a != b:
+        diff = {k: (a.get(k), b.get(k)) for k in set(a) | set(b) if a.get(k) != b.get(k)}
+        ctx.fail("not-restored", case, expected=S.strip_roots(res, {k: v[0] for k, v in diff.items()}),
+                 observed=S.strip_roots(res, {k: v[1] for k, v in diff.items()}),
+                 what="after setup + unsetup of %s: %r" % (r1["request"]["name"], S.strip_roots(res, diff)))
+        return
+    shell = {}
+    for r in (r1, r2):
+        for k in r.get("old_aliases", []):
+            if k not in r["aliases"]:
+                shell.pop(k, None)
+        shell.update(r["aliases"])
+    if r2["aliases"] or shell:
+        ctx.fail("alias-left", case, expected={}, observed=shell or r2["aliases"],
+                 what="after setup + unsetup of %s the shell still has the aliases %r" % (r1["request"]["name"], sorted(shell or r2["aliases"])))
+        return
+    shell_oracle(ctx, case, r1, r2, lambda e: S.ms_norm_env(res, e), lambda x: S.strip_roots(res, x))
+
+
+def m_stack_root_marker(f):
+    """candidate finding (several stacks): utils.encodePath writes a blank of the stack root as the marker -+-, and a
+    root with the characters -+ in front of a blank (or a blank in front of +-) gives a text that utils.decodePath reads
+    back as another path; the product set up from such a stack cannot be unset up"""
+    w = f["input"].get("world", {})
+    return f["kind"] == "unsetup-failed" and S.is_ms(w) and \
+        any("-+ " in st["root"] or " +-" in st["root"] for st in w["stacks"])
+
+
+def m_dep_variable_after_dependency(f):
+    """known finding D60: see setupsim.m_dep_variable_not_restored"""
+    return S.m_dep_variable_not_restored(f)
+
+
+def register(ctx):
+    ctx.matchers["c02.envset_preexisting"] = m_envset_preexisting
+    ctx.matchers["c02.stack_root_marker"] = m_stack_root_marker
+    ctx.matchers["c02.dep_variable_after_dependency"] = m_dep_variable_after_dependency
 
 
 def m_envset_preexisting(f):
@@ -148,10 +280,16 @@ def m_envset_preexisting(f):
 
 
 def run(ctx):
-    ctx.matchers["c02.envset_preexisting"] = m_envset_preexisting
+    register(ctx)
     ctx.rule = ("random worlds as for C01; from an environment in which nothing of the closure is set up (path variables "
                 "with duplicate, doubled and trailing delimiters, sometimes a pre-existing value of a variable a table "
-                "sets): setup X (bare / explicit version / unknown version) then unsetup X; non-trivial = the setup "
+                "sets): setup X (bare / explicit version / unknown version) then unsetup X; the same through the "
+                "command-line front end with the path variables unset or empty beforehand, the two printed command lists "
+                "sourced by a shell (export / unset / function definitions interpreted in harness/setupsim.py shell_apply) "
+                "and the shell's final environment compared with the one before; tables whose values refer to other "
+                "variables (a dependency's directory variable; list-valued variables of the user's environment: "
+                "envAppend(PLUGIN_PATH, ${SITE_DIRS_P3}, ;) with SITE_DIRS_P3=/site/p3/a;/site/p3/b); worlds of two stacks "
+                "(random and directed); names in a prefix relation and -j lines; non-trivial = the setup "
                 "succeeds and sets up at least two products; distinct = distinct (world, requests, env0)")
     ctx.trusted_base = common.COMMON_TRUSTED + [
         "two model runs per request: Model/Setup.v fed with the decisions of the real resolver (captured by a spy), and "
@@ -164,27 +302,33 @@ def run(ctx):
         "the same decisions; every table is also compared action by action",
         "the shell's alias state across the two commands is reconstructed from Eups.aliases / Eups.oldAliases the way "
         "app.setup emits them (define, then remove the old names that are not defined again)"]
-    ctx.assumptions = ["one stack, one flavor, declared products only", "WF2 of Proofs/SetupInv.v for the theorems",
+    ctx.assumptions = ["declared products only", "WF2 of Proofs/SetupInv.v for the theorems (its base WF excludes table "
+                       "values with references: those are covered by the tie, the oracle, the theorems "
+                       "unsetup_removes_every_element_of_a_list_valued_reference / list_valued_reference_is_taken_back "
+                       "and the Example dep_variable_after_dependency_refuted = finding D60)",
+                       "unsetup_commands_restore_the_shell: cmds_in_claim (the hypotheses of C05's emit_sound at both "
+                       "calls; no call removes EUPS_DIR / EUPS_PATH / EUPS_PKGROOT / EUPS_SHELL); alias commands are "
+                       "outside the shell fragment of Model/Shell.v and are read by the harness only",
                        "unsetup_inverts_setup: the hypotheses of closure_exact (conflict_free: no product requested in two "
                        "versions; no --max-depth / --just / -j line / keep; wf_db; total order on the version names - for the "
                        "real comparator: fw_real_ok, or fw_conv and db_sorted with the rule read in vcmp_sorted), Inv "
                        "and fresh_for of the start state (no variable or alias that a reachable product owns is set: "
                        "outside it finding D11 applies); the code after the fix of D36 (popStack env restores the aliases)"]
     ctx.check_theorems()
-    scenarios = S.corpus("C02") + [gen_scenario(ctx.rng) for _ in range(ctx.size(200, 3000))]
+    scenarios = [c for c in S.corpus("C02") if not S.is_ms(c["world"])] + [gen_scenario(ctx.rng) for _ in range(ctx.size(150, 3000))]
     for s in scenarios[:3]:
         ctx.sample({"requests": s["requests"], "env0": s["env0"], "products": s["world"]["products"]})
     for i in range(0, len(scenarios), 400):
         S.run_scenarios(ctx, scenarios[i:i + 400], oracle)
     # directed families: a version switch inside an optional subtree that fails further down and is rolled back, the
     # product being asked for again afterwards; tables that remove their own directory variable
-    directed = [gen_switch_then_failure(ctx.rng) for _ in range(ctx.size(40, 600))] + \
-               [gen_envunset_own_dir(ctx.rng) for _ in range(ctx.size(16, 200))]
+    directed = [gen_switch_then_failure(ctx.rng) for _ in range(ctx.size(30, 600))] + \
+               [gen_envunset_own_dir(ctx.rng) for _ in range(ctx.size(12, 200))]
     for i in range(0, len(directed), 400):
         S.run_scenarios(ctx, directed[i:i + 400], oracle)
     # setup then unsetup on worlds whose table texts vary (see harness/setupsim.py gen_scenario_text): the text-fed
     # model of coq/Model/SetupText.v is the one that reads them
-    textual = [S.gen_scenario_text(ctx.rng, inverse=True) for _ in range(ctx.size(60, 900))]
+    textual = [S.gen_scenario_text(ctx.rng, inverse=True) for _ in range(ctx.size(40, 900))]
     for i in range(0, len(textual), 400):
         S.run_scenarios(ctx, textual[i:i + 400], oracle)
 
@@ -192,15 +336,39 @@ def run(ctx):
     # setup then unsetup on worlds with version names of C10's grammar: the composed model with the real comparator
     # (coq/Model/ResolveReal.v) decides every version
     versions = [s for s in S.directed_version_scenarios() if len(s["requests"]) == 2] + \
-               [S.gen_scenario_versions(ctx.rng, "inverse") for _ in range(ctx.size(100, 1200))]
+               [S.gen_scenario_versions(ctx.rng, "inverse") for _ in range(ctx.size(70, 1200))]
     for i in range(0, len(versions), 400):
         S.run_scenarios(ctx, versions[i:i + 400], oracle)
+    # several stacks on EUPS_PATH (coq/Model/SetupMS*.v): setup X then unsetup X, products found in the second stack, the
+    # same version in both stacks with different tables, the unsetup made with another selection of stacks (-Z / -z)
+    ms = [c for c in S.corpus("C02") if S.is_ms(c["world"])] + \
+         [S.gen_scenario_ms(ctx.rng, "inverse") for _ in range(ctx.size(MS_INVERSE, 1200))] + \
+         [S.gen_scenario_ms_directed(ctx.rng, "inverse") for _ in range(ctx.size(MS_DIRECTED, 600))]
+    for i in range(0, len(ms), 400):
+        S.run_scenarios_ms(ctx, ms[i:i + 400], oracle_ms)
+    # the command list (observe_at: command list returned by eups.app.setup): both requests through setupcmd, the printed
+    # commands sourced by a shell; table values that refer to other variables (a dependency's directory variable, list-
+    # valued variables of the user's environment); names in a prefix relation and -j lines
+    nb = [sc for sc in (S.gen_scenario_neighbours(ctx.rng, rng_shape) for rng_shape in ["unsetup"] * ctx.size(NEIGHBOURS, 300))]
+    for sc in nb:
+        sc["requests"] = sc["requests"][-2:]
+        if sc["requests"][0].get("cli"):
+            sc["requests"][1]["cli"] = True
+    extra = [gen_scenario_shell(ctx.rng) for _ in range(ctx.size(SHELL, 900))] + \
+            [S.gen_scenario_refs(ctx.rng, "inverse") for _ in range(ctx.size(REFS, 600))] + nb
+    for sc in extra:
+        ctx.bump("family:" + sc["world"].get("family", "shell"))
+    for i in range(0, len(extra), 400):
+        S.run_scenarios(ctx, extra[i:i + 400], oracle)
 
 
 def replay(ctx, path):
-    ctx.matchers["c02.envset_preexisting"] = m_envset_preexisting
+    register(ctx)
     obj = json.load(open(path))
-    S.run_scenarios(ctx, [obj["input"]], oracle)
+    if S.is_ms(obj["input"]["world"]):
+        S.run_scenarios_ms(ctx, [obj["input"]], oracle_ms)
+    else:
+        S.run_scenarios(ctx, [obj["input"]], oracle)
     bad = [f for f in ctx.failures if not ctx._known(f)] or ctx.disagreements
     print("replay %s: %s" % (path, "still fails" if bad else "passes"))
     return 1 if bad else 0
